@@ -49,28 +49,22 @@ let () =
       Hashtbl.replace branch key (1 + try Hashtbl.find branch key with Not_found -> 0);
       Array.iteri (fun na fa -> Array.iteri (fun nb fb ->
           let t1 = if mask (n ll) && geti r "noType1" = 0 then type1 fops pi wf rad1 fa fb a3 b3 else 0.0 in
+          (* the dispatch itself is the extracted Coq function pair_t2 (ShellPairModel.v, symmetric under exchange by
+             ShellPairDispatch.pair_t2_swap); the driver only hands it the leaves in the layout the library stores them *)
           let t2 l mu =
             let li = int_of_nat l in
-            let sh nm = let m = getm r (Printf.sprintf "%s_%d" nm li) in fun l_ m_ -> m.d.(int_of_nat l_ * m.cols + int_of_nat l_ + int_of_z m_) in
-            if ona && onb then t2_both fops pi omf (fun i -> gam.(int_of_nat i)) l (n la) (n lb) (prims "primsA") (prims "primsB") pu fa fb mu
-            else if ona then
-              let rq nn l1 l2 = let m = getm r (Printf.sprintf "r2q_%d_%d" li (int_of_nat nn)) in m.d.(int_of_nat l1 * m.cols + int_of_nat l2) in
-              rolled_up_special fops pi omf (sh "SB") rq l fa fb b3 mu
-            else if onb then
-              (* mirrored: roles of the shells exchanged, radials transposed *)
-              let rq nn l1 l2 = let m = getm r (Printf.sprintf "r2q_%d_%d" li (int_of_nat nn)) in m.d.(int_of_nat l2 * m.cols + int_of_nat l1) in
-              rolled_up_special fops pi omf (sh "SA") rq l fb fa a3 mu
-            else begin
-              let m = getm r (Printf.sprintf "r2g_%d" li) in
-              if la <= lb then
-                let d2 = li + lb + 1 in
-                let rg nn l1 l2 = m.d.(int_of_nat nn * m.cols + int_of_nat l1 * d2 + int_of_nat l2) in
-                rolled_up fops pi omf (sh "SA") (sh "SB") rg l fa fb a3 b3 mu
-              else
-                let d2 = li + la + 1 in
-                let rg nn l1 l2 = m.d.(int_of_nat nn * m.cols + int_of_nat l1 * d2 + int_of_nat l2) in
-                rolled_up fops pi omf (sh "SB") (sh "SA") rg l fb fa b3 a3 mu
-            end in
+            let sh nm = if ona && onb then (fun _ _ -> nan) else
+                let m = getm r (Printf.sprintf "%s_%d" nm li) in fun l_ m_ -> m.d.(int_of_nat l_ * m.cols + int_of_nat l_ + int_of_z m_) in
+            let radq = if (ona || onb) && not (ona && onb) then
+                (fun nn l1 l2 -> let m = getm r (Printf.sprintf "r2q_%d_%d" li (int_of_nat nn)) in m.d.(int_of_nat l1 * m.cols + int_of_nat l2))
+              else (fun _ _ _ -> nan) in
+            let radg = if not ona && not onb then
+                (let m = getm r (Printf.sprintf "r2g_%d" li) in
+                 let d2 = li + (if la <= lb then lb else la) + 1 in
+                 fun nn l1 l2 -> m.d.(int_of_nat nn * m.cols + int_of_nat l1 * d2 + int_of_nat l2))
+              else (fun _ _ _ -> nan) in
+            let sa = if ona then (fun _ _ -> nan) else sh "SA" and sb = if onb then (fun _ _ -> nan) else sh "SB" in
+            pair_t2 fops pi omf (fun i -> gam.(int_of_nat i)) ona onb (n la) (n lb) (prims "primsA") (prims "primsB") pu sa sb radq radg l fa fb a3 b3 mu in
           let mv = combine_pair fops (n ll) mask (geti r "noType1" = 1) t1 t2 in
           let v = impl.d.(na * impl.cols + nb) in
           incr ncmp; if v <> 0.0 then incr nnz;
